@@ -1,12 +1,10 @@
 CONSTANT MaxLines = 3
 CONSTANT SampleAbove = 3
 CONSTANT SampleOneIn = 1
-CONSTANT PoolSel = "main"
+CONSTANT PoolSel = "twins"
 CONSTANT ExecMode = "canon"
 CONSTANT CompileMode = "outerfirst"
-SPECIFICATION Spec
-INVARIANT WrittenIsPerm
-INVARIANT CanonicalStack
-INVARIANT PermutationInvariant
-INVARIANT PairOrder
+INIT Init
+NEXT AddLine
+INVARIANT Emit
 CHECK_DEADLOCK FALSE
